@@ -193,8 +193,11 @@ def _op_pair_diffs(a, b, num_a, num_b, ta, tb, res):
         for k in sorted(set(da) | set(db)):
             kind = "dropped" if k not in db else "gained" if k not in da else "changed" if da[k] != db[k] else None
             if kind:
-                out.append(({"op": na, "component": comp, "detail": kind, "key": k,
-                             "a": str(ga(k))[:200], "b": str(gb(k))[:200]}, False))
+                d = {"op": na, "component": comp, "detail": kind, "key": k, "a": str(ga(k))[:200], "b": str(gb(k))[:200]}
+                cls = _array_of_dict_class(a, k, ga(k) if ga(k) is not None else gb(k))
+                if cls:
+                    d["value_class"] = cls
+                out.append((d, False))
     sa = [num_a.get(id(s), "ext") for s in a.successors]
     sb = [num_b.get(id(s), "ext") for s in b.successors]
     if sa != sb:
@@ -216,6 +219,29 @@ def _op_pair_diffs(a, b, num_a, num_b, ta, tb, res):
                              "detail": f"region {ri} block {bi}: {len(list(x.ops))} vs {len(list(y.ops))} ops"}, True))
                 return out
     return out
+
+
+def _array_of_dict_class(op, key, value):
+    """Shape class of a per-element attribute array (arg_attrs / res_attrs and alike), so that a known finding about
+    one shape (e.g. an array of only empty dictionaries is not printed) cannot absorb a defect about another (a
+    partially filled array is lost): all-empty / partial / full, or length-mismatch when the op has a function type and
+    the array length is not the number of arguments / results."""
+    from xdsl.dialects.builtin import ArrayAttr, DictionaryAttr
+    if not isinstance(value, ArrayAttr) or not value.data or not all(isinstance(e, DictionaryAttr) for e in value.data):
+        return None
+    n = len(value.data)
+    ft = op.properties.get("function_type", op.attributes.get("function_type"))
+    if ft is not None and key in ("arg_attrs", "res_attrs"):
+        try:
+            ins = list(ft.inputs)
+            outs = list(ft.outputs) if hasattr(ft, "outputs") else [ft.output]
+            want = len(ins) if key == "arg_attrs" else len([o for o in outs if type(o).__name__ != "LLVMVoidType"])
+            if want != n:
+                return "length-mismatch"
+        except Exception:  # noqa: BLE001 - classifier only
+            pass
+    empty = sum(1 for e in value.data if not e.data)
+    return "all-empty" if empty == n else "full" if empty == 0 else "partial"
 
 
 def _op_pair_diff(a, b, num_a, num_b, ta, tb, res):
@@ -242,7 +268,7 @@ def all_op_diffs(ma, mb, table_a=None, table_b=None, limit=60):
     for a, b in zip(wa, wb):
         stop = False
         for d, structural in _op_pair_diffs(a, b, num_a, num_b, ta, tb, resolve_resources):
-            sig = (d["op"], d["component"], d.get("key"), d.get("detail") if "key" in d else None)
+            sig = (d["op"], d["component"], d.get("key"), d.get("detail") if "key" in d else None, d.get("value_class"))
             if sig not in seen:
                 seen.add(sig)
                 d["a_op_generic"] = op_text(a, generic=True, limit=500)
